@@ -1,0 +1,70 @@
+//go:build verif
+
+package server
+
+// Contracts for the hvc verifier (/verif). Comment-only: this file adds no code
+// with or without the build tag.
+
+// The caller must not hold the mutex of the client it sends to (Go mutexes are
+// not reentrant); SendEvent itself leaves it as it found it on every exit.
+//@ func (t *Teamserver) SendEvent(id string, pk packager.Package) (err error)
+//@   requires nonnil: t != nil
+//@   requires unlocked: smhas(t.Clients, id) ==> !held(smget(t.Clients, id).Mutex)
+
+// C11: retained unless it has no event code or is one-shot; appended at the end.
+// (The second append of the return statement may write one more spare slot.)
+//@ func (t *Teamserver) EventAppend(event packager.Package) (r []packager.Package)
+//@   requires nonnil: t != nil
+//@   modifies t.EventsList, t.EventsList[len(t.EventsList)], t.EventsList[len(t.EventsList)+1]
+//@   ensures keep: (event.Head.Event != 0 && event.Head.OneTime != "true") ==> t.EventsList == cat(old(t.EventsList), seq(event))
+//@   ensures drop: (event.Head.Event == 0 || event.Head.OneTime == "true") ==> (sameslice(t.EventsList, old(t.EventsList)) && t.EventsList == old(t.EventsList))
+
+// C06: the authenticator says yes only for an InitConnection/OAuthRequest package
+// that names an operator of the profile and whose Password field is a string equal
+// to the digest computed for that operator (UserPassword is the local holding it).
+//@ func (t *Teamserver) ClientAuthenticate(pk packager.Package) (ok bool)
+//@   requires nonnil: t != nil
+//@   modifies *
+//@   ensures kind:   ok ==> (pk.Head.Event == packager.Type.InitConnection.Type && pk.Body.SubEvent == packager.Type.InitConnection.OAuthRequest)
+//@   ensures user:   ok ==> (t.Profile != nil && t.Profile.Config.Operators != nil && exists(i, 0, len(t.Profile.Config.Operators.Users), t.Profile.Config.Operators.Users[i].Name == pk.Head.User))
+//@   ensures digest: ok ==> (typeis(pk.Body.Info["Password"], string) && unboxed(pk.Body.Info["Password"], string) == UserPassword)
+//@   loop "for _, User := range t.Profile.Config.Operators.Users"
+//@     invariant found: UserFound ==> exists(i, 0, idx__, t.Profile.Config.Operators.Users[i].Name == pk.Head.User)
+
+// C06: nothing is dispatched, recorded, broadcast or replayed, and the
+// connection is not marked authenticated, unless ClientAuthenticate said yes.
+//@ func (t *Teamserver) handleRequest(id string)
+//@   requires nonnil: t != nil
+//@   requires unlocked: allunlocked("Havoc/cmd/server.Client", "Mutex")
+//@   modifies *
+//@   guard-call auth: "DispatchEvent|EventAppend|EventBroadcast|SendAllPackagesToNewClient" lastresult(ClientAuthenticate) == true
+//@   guard-store auth: "Client\.Authenticated" lastresult(ClientAuthenticate) == true
+
+//@ func (t *Teamserver) EventBroadcast(ExceptClient string, pk packager.Package)
+//@   requires nonnil: t != nil
+//@   requires unlocked: allunlocked("Havoc/cmd/server.Client", "Mutex")
+//@   modifies *
+
+//@ func (t *Teamserver) SendAllPackagesToNewClient(ClientID string)
+//@   requires nonnil: t != nil
+//@   requires agents: forall(i, 0, len(t.Agents.Agents), t.Agents.Agents[i] != nil)
+//@   requires unlocked: allunlocked("Havoc/cmd/server.Client", "Mutex")
+//@   modifies *
+
+//@ func (t *Teamserver) RemoveClient(ClientID string)
+//@   requires nonnil: t != nil
+//@   requires unlocked: allunlocked("Havoc/cmd/server.Client", "Mutex")
+//@   modifies *
+
+// Closures run by sync.Map.Range: their free variables are the cells of the
+// creating function; what those cells hold is a precondition (established by the
+// creator, assumed here because Range is library code).
+//@ func (t *Teamserver) EventBroadcast$1(key any, value any, ExceptClient *string, t **Teamserver, pk *packager.Package) (r bool)
+//@   requires ctx: *t != nil && allunlocked("Havoc/cmd/server.Client", "Mutex")
+//@   requires entry: typeis(key, string) && typeis(value, *Client) && unboxed(value, *Client) != nil
+//@   modifies *
+//@   guard-call authd: "SendEvent" unboxed(value, *Client).Authenticated == true
+
+//@ func (t *Teamserver) handleRequest$1(key any, value any, client **Client, pk *packager.Package, t **Teamserver, id *string, isExist *bool) (r bool)
+//@   requires ctx: *t != nil && *client != nil && allunlocked("Havoc/cmd/server.Client", "Mutex")
+//@   modifies *
